@@ -48,9 +48,12 @@ let () = register "tbvalue" (function
   | name :: ws -> str_opt hex_or_dash (tbs_value (List.map parse_field ws) (coq_string name))
   | _ -> "ERROR bad arguments for tbvalue")
 
+(* the value is reported modulo 2^61-1 (the numbers of the 4300-digit boundary cases are too long to print) *)
+let big_m = z_of_string "2305843009213693951"
 let () = register "ptint" (function
   | [base; raw] -> consulted := false;
-    let r = str_m string_of_z (pt_int uni (z_of_string base) (bytes_of_hex raw)) in r ^ flag ()
+    let r = str_m (fun v -> string_of_z (snd (Z.div_eucl v big_m))) (pt_int uni (z_of_string base) (bytes_of_hex raw)) in
+    r ^ flag ()
   | _ -> "ERROR bad arguments for ptint")
 
 let str_parts l = String.concat "," (List.map hex_or_dash l)
